@@ -250,6 +250,13 @@ def gen_cases(ctx):
                 h = g if r == 0 else C.shuffled_graph(rng, g)
                 yield {"kind": "p2d", "g": h, "src": "exh%d" % n, "cls": "cpdag" if k % 3 == 0 else "mixed",
                        "fam": fams[k % len(fams)] if r else "int"}
+    if tier == "thorough":
+        # a seed-dependent eighth of all 5-node PDAGs (4^10 pair-state combinations)
+        for i, g in enumerate(C.enum_graphs(5, U.PDAG_STATES)):
+            if i % 8 == ctx["seed"] % 8 and C.is_acyclic(5, g["D"]):
+                k += 1
+                yield {"kind": "p2d", "g": g, "src": "exh5(1/8)", "cls": "cpdag" if k % 3 == 0 else "mixed",
+                       "fam": fams[k % len(fams)]}
     N = 6000 if tier == "quick" else 120000
     for i in range(N):
         n = rng.choice((4, 5, 5, 6, 6, 7))
@@ -294,7 +301,7 @@ def _eval_impl(case):
 def run(ctx):
     ev, out = ctx["ev"], ctx["out"]
     ev.rule = ("pdag_to_dag: every PDAG on <=4 nodes over pair states {none,->,<-,--} with acyclic directed part "
-               "(quick: one insertion order at n=4, else two), random PDAGs on 4..7 nodes of three kinds: "
+               "(quick: one insertion order at n=4, else two; thorough: also a seed-dependent eighth of all 5-node PDAGs), random PDAGs on 4..7 nodes of three kinds: "
                "(aimed) sink with two parents and an undirected neighbour adjacent to them plus noise, "
                "(dag-undirected) random DAG with a random subset of edges made undirected, (random) DAG-ordered "
                "random mix; MixedEdgeGraph and CPDAG classes, five label families, shuffled insertion order. "
